@@ -145,7 +145,20 @@ def check(ctx, rep):
     users = [b.path for b, bi, t in util.callers_of(fb, "srp_internal::calculate_server_proof") if not b.path.startswith("srp_internal::test")]
     rep.check(set(users) >= {"server::SrpProof::into_server", "client::SrpClientChallenge::verify_server_proof"}, "same-derivation", "srp_internal::calculate_server_proof", "m2-shared", "M2 is computed by one function on both sides", "server and client do not share the M2 computation (callers: %s)" % users)
     # K: one producer of SessionKey for both sides
-    prod = [b.path for b, bi, t in util.callers_of(fb, "srp_internal::calculate_interleaved")]
+    prod = []
+    work = [b.path for b, bi, t in util.callers_of(fb, "srp_internal::calculate_interleaved")]
+    seen = set()
+    while work:
+        p_ = work.pop()
+        if p_ in seen:
+            continue
+        seen.add(p_)
+        if getattr(ctx, "fresh_pure", None) and ctx.fresh_pure(p_, 0):
+            # a helper extracted by a refactoring: what matters is who calls it
+            work.extend(b.path for b, bi, t in util.callers_of(fb, p_))
+        else:
+            prod.append(p_)
+    prod.sort()
     rep.check("srp_internal::calculate_session_key" in prod and any(p_.startswith("client::SrpClientChallenge::") for p_ in prod) and all(p_ == "srp_internal::calculate_session_key" or p_.startswith("client::SrpClientChallenge::") for p_ in prod), "same-derivation", "srp_internal::calculate_interleaved", "k-shared", "both sides derive K with the same interleave function", "K producers: %s" % prod)
     # ---- (c) padding at the copy sites
     sites = [("bigint::Integer::to_padded_32_byte_array_le", 32), ("key::PublicKey::try_from_bigint", 32), ("key::PublicKey::client_try_from_bigint", 32)]
